@@ -555,6 +555,43 @@ func orgRoundTrip(g *genetics.Genome, fit float64, gen int, hf float64, pcc bool
 	}
 	if len(d) > 0 {
 		res.fail("codec/organism/roundtrip", "organism binary form does not restore the organism: %s", strings.Join(d, "; "))
+		return
+	}
+	// the binary form is the organism AS IT IS when it is marshalled: an organism that was marshalled before, whose genome
+	// then changed in place (what every mutator does) and whose fitness was re-assigned, is marshalled again
+	g2, derr := g.VerifDuplicate(g.Id)
+	if derr != nil || len(g2.Genes) == 0 {
+		return
+	}
+	live, _ := genetics.NewOrganism(fit, g2, gen)
+	if _, err := live.MarshalBinary(); err != nil {
+		return
+	}
+	g2.Genes[0].IsEnabled = !g2.Genes[0].IsEnabled
+	last := g2.Genes[len(g2.Genes)-1]
+	last.Link.ConnectionWeight = -last.Link.ConnectionWeight + 0.5
+	last.MutationNum += 1
+	live.Fitness, live.Generation = hf, gen+3
+	want2 := project(g2, false)
+	data3, err := live.MarshalBinary()
+	res.evals++
+	if err != nil {
+		res.fail("codec/organism/write", "Organism.MarshalBinary failed on an organism that was marshalled before: %v", err)
+		return
+	}
+	back3 := &genetics.Organism{}
+	if err := back3.UnmarshalBinary(data3); err != nil || back3.Genotype == nil {
+		res.fail("codec/organism/read", "Organism.UnmarshalBinary rejects the second binary form of a changed organism: %v", err)
+		return
+	}
+	var d3 []string
+	if !sameBits(back3.Fitness, hf) || back3.Generation != gen+3 {
+		d3 = append(d3, fmt.Sprintf("fitness/generation (%s, %d), organism has (%s, %d)", vhu.Fstr(back3.Fitness), back3.Generation, vhu.Fstr(hf), gen+3))
+	}
+	d3 = append(d3, diffGenomes(want2, project(back3.Genotype, false), true)...)
+	if len(d3) > 0 {
+		res.fail("codec/organism/roundtrip", "an organism marshalled, changed in place (enabled flag of the first gene, weight of the last) and marshalled again is not restored as it is now: %s",
+			strings.Join(d3, "; "))
 	}
 }
 
